@@ -409,6 +409,15 @@ func VerifDir() string {
 	return "/verif"
 }
 
+// OutDir is where evidence and replays are written (VERIF_OUT overrides; used when a
+// check is pointed at a patched scratch tree so that /verif/evidence is not overwritten).
+func OutDir() string {
+	if d := os.Getenv("VERIF_OUT"); d != "" {
+		return d
+	}
+	return VerifDir()
+}
+
 // CheckMain runs property id at the given tier; returns the process exit code.
 func CheckMain(id, tier string) int {
 	sc := Lookup(id)
@@ -458,7 +467,7 @@ func CheckMain(id, tier string) int {
 		sigs = append(sigs, s)
 	}
 	sort.Slice(sigs, func(i, j int) bool { return a.fails[sigs[i]].Idx < a.fails[sigs[j]].Idx })
-	replayDir := filepath.Join(VerifDir(), "replays", id)
+	replayDir := filepath.Join(OutDir(), "replays", id)
 	os.MkdirAll(replayDir, 0o755)
 	violations := 0
 	harnessErr := false
@@ -533,8 +542,8 @@ func CheckMain(id, tier string) int {
 	ev := Evidence{PropertyID: id, Tier: tier, Seed: Seed(), Level: sc.Level(), Coverage: cov, Assumptions: sc.Assumptions(),
 		WallS: time.Since(t0).Seconds(), Violations: violations}
 	eb, _ := json.MarshalIndent(ev, "", " ")
-	os.MkdirAll(filepath.Join(VerifDir(), "evidence"), 0o755)
-	if err := os.WriteFile(filepath.Join(VerifDir(), "evidence", id+".json"), eb, 0o644); err != nil {
+	os.MkdirAll(filepath.Join(OutDir(), "evidence"), 0o755)
+	if err := os.WriteFile(filepath.Join(OutDir(), "evidence", id+".json"), eb, 0o644); err != nil {
 		fmt.Println("ERROR cannot write evidence:", err)
 		return 2
 	}
